@@ -166,6 +166,7 @@ func (p *BundlePropertyExperimenter) UnmarshalBinary(data []byte) error {
 func NewBundlePropertyExperimenter() *BundlePropertyExperimenter {
 	p := new(BundlePropertyExperimenter)
 	p.Type = OFPBPT_EXPERIMENTER
+	p.Length = 12 // type, length, experimenter id and experimenter type; no data
 	return p
 }
 
